@@ -220,3 +220,24 @@ def enumerate_cc(width=2):
         for args in itertools.product(pool, repeat=n):
             out.append(m.ExprOp(op, *args))
     return out
+
+
+def enumerate_ext_cmp():
+    """comparisons of a sign / zero extended operand with every constant around the operand's and the result's boundaries, both
+    operand orders (the simplifier narrows such comparisons to the operand's width)"""
+    import miasm.expression.expression as m
+    out = []
+    for wa, w in ((3, 8), (4, 8), (8, 16), (8, 32), (5, 24), (1, 8)):
+        a = m.ExprId("a%d" % wa, wa)
+        half = 1 << (wa - 1)
+        csts = sorted(set(c & ((1 << w) - 1) for c in (
+            0, 1, half - 1, half, half + 1, (1 << wa) - 1, 1 << wa, (1 << wa) + 1, (1 << w) - half, (1 << w) - half - 1, (1 << w) - half + 1,
+            (1 << w) - 1, (1 << w) - 2, 1 << (w - 1), (1 << (w - 1)) - 1, (1 << (w - 1)) + 1)))
+        for ext in ("signExt", "zeroExt"):
+            x = m.ExprOp("%s_%d" % (ext, w), a)
+            for op in ("<s", "<=s", "<u", "<=u", "=="):
+                for c in csts:
+                    k = m.ExprInt(c, w)
+                    out.append(m.ExprOp(op, x, k))
+                    out.append(m.ExprOp(op, k, x))
+    return out
